@@ -276,6 +276,7 @@ fn seed_bytes(seed: u64, worker: u64, stream: u64) -> [u8; 32] {
 fn run_worker(prop: &Prop, cases: u64, seed: u64, worker: u64, known_open: &HashSet<String>, thorough: bool) -> WorkerStats {
     let stats = RefCell::new(WorkerStats::default());
     let failed = RefCell::new(false);
+    let first_key: RefCell<Option<String>> = RefCell::new(None);
     let mut config = Config::default();
     config.cases = cases.min(u32::MAX as u64) as u32;
     config.failure_persistence = None;
@@ -329,6 +330,14 @@ fn run_worker(prop: &Prop, cases: u64, seed: u64, worker: u64, known_open: &Hash
         }
         match out {
             Outcome::Fail(f) => {
+                // key-preserving shrinking: once a failure has been seen, only the same failure (same
+                // finding key) counts as failing, so the shrinker cannot drift to a different defect
+                let mut fk = first_key.borrow_mut();
+                match &*fk {
+                    None => *fk = Some(f.key.clone()),
+                    Some(k) if *k != f.key => return Ok(()),
+                    _ => {}
+                }
                 *failed.borrow_mut() = true;
                 Err(TestCaseError::fail(format!("{}\u{1}{}\u{1}{}", f.sub, f.key, f.msg)))
             }
@@ -452,8 +461,12 @@ pub fn run_property(prop: &Prop, cfg: &RunCfg) -> i32 {
         }
         merged.excluded_known += st.excluded_known;
         merged.samples.extend(st.samples);
-        if merged.failure.is_none() {
-            merged.failure = st.failure;
+        // a poisoned global lock makes every later call fail: prefer the failure that is not such an echo
+        let is_echo = |f: &Option<(Failure, Vec<u8>)>| f.as_ref().map(|x| x.0.msg.contains("PoisonError")).unwrap_or(true);
+        if merged.failure.is_none() || (is_echo(&merged.failure) && !is_echo(&st.failure)) {
+            if st.failure.is_some() {
+                merged.failure = st.failure;
+            }
         }
     }
 
